@@ -9,6 +9,7 @@ import ast
 from .model import NOCONST, EnumVal, Cls, attr_chain, fold_binop, _NotConst, AnalysisError
 
 SELF = ("self",)
+TABLE_FIELDS = {"_rcv_buffer", "_snd_buffer", "_multi_pg_snd_buffer"}
 
 BINOPS = {ast.Add: "+", ast.Sub: "-", ast.Mult: "*", ast.Div: "/", ast.FloorDiv: "//", ast.Mod: "%",
           ast.Pow: "**", ast.LShift: "<<", ast.RShift: ">>", ast.BitOr: "|", ast.BitAnd: "&",
@@ -505,10 +506,22 @@ class SymEval:
         if f == ("glob", "list") and len(args) == 1 and args[0][0] == "list":
             return args[0]
         s = ("call", f, args, kwargs)
+        # keyed access to a session table spelt with dict methods: same access path as T[k]
+        if f[0] == "attr" and f[2] in ("get", "pop") and f[1][0] == "attr" and f[1][1] == SELF and f[1][2] in TABLE_FIELDS \
+                and 1 <= len(args) <= 2 and not kwargs:
+            path = ("sub", f[1], args[0])
+            self.effects.append(Eff("call", None, s, n))
+            if f[2] == "pop":
+                self.effects.append(Eff("del", path, None, n, "pop"))
+                for k in [k for k in self.heap if k == path or contains(k, path)]:
+                    self.heap.pop(k, None)
+                return ("popped", path)
+            return self._heap_read(path)
         self.effects.append(Eff("call", None, s, n))
         # local list mutation idioms
         if f[0] == "attr" and isinstance(n.func, ast.Attribute) and isinstance(n.func.value, ast.Name) \
-                and n.func.value.id in self.env and not is_heap_path(self.env[n.func.value.id]):
+                and n.func.value.id in self.env and (not is_heap_path(self.env[n.func.value.id])
+                                                     or self.env[n.func.value.id][0] == "p"):
             self._local_mut(n.func.value.id, f[2], args)
         return s
 
